@@ -1,4 +1,5 @@
 SPECIFICATION Spec
-CONSTANT What = "equality"
+CONSTANTS What = "equality"
+ Scope = "quick"
 INVARIANT Emit
 CHECK_DEADLOCK FALSE
